@@ -94,13 +94,14 @@ def NameInv (hash : Bytes → Digest) (st : Store) : Prop :=
 
 /-! ## Success -/
 
-/-- **A successful pull leaves the published, digest-verified model** — for every store satisfying
-    `BlobInv`, every registry, every fault script, every manifest whose digests are pairwise
-    distinct: if `pull` reports success then every layer of the served manifest (config included) is
-    addressable, stored, and its bytes hash to its digest; and the name resolves to the served
-    manifest.  (Without `Nodup` the statement is false: `dup_digest_skips_verification`.) -/
+/-- **A successful pull leaves the published, digest-verified model** (pinned `skipVerify` logic) —
+    for every store satisfying `BlobInv`, every registry, every fault script, every manifest whose
+    digests are pairwise distinct: if `pull` reports success then every layer of the served manifest
+    (config included) is addressable, stored, and its bytes hash to its digest; and the name resolves
+    to the served manifest.  (Without `Nodup` the statement is false of the pinned code:
+    `dup_digest_skips_verification`; the repaired code needs no `Nodup`: `pull_success_complete_fixed`.) -/
 theorem pull_success_complete (cfg : Cfg) (hash : Bytes → Digest) (name : Name) (reg : Registry)
-    (sc : Scripts) (st st' : Store) (log : Log)
+    (sc : Scripts) (st st' : Store) (log : Log) (hdup : cfg.fixedDup = false)
     (hinv : BlobInv hash st) (hnodup : (reg.manifest.all.map (·.digest)).Nodup)
     (h : pull cfg hash name reg sc st = (.ok (), st', log)) :
     (∀ l ∈ reg.manifest.all, ∃ d c, l.digest = .ok d ∧ st'.blobs d = some c ∧ hash c = d) ∧
@@ -111,45 +112,74 @@ theorem pull_success_complete (cfg : Cfg) (hash : Bytes → Digest) (name : Name
   · rcases hcase with ⟨hne, ho, _⟩ | ⟨hov, _, hman, hblobs⟩
     · exact absurd ho.symm hne
     · subst hov
-      obtain ⟨hst2, hver⟩ := verifyLoop_ok _ hv
+      obtain ⟨hst2, hver⟩ := verifyPhase_ok hv
       subst hst2
       refine ⟨?_, by rw [hman]; exact lookupM_insertM _ _ _⟩
       intro l hl
-      obtain ⟨d, c, hd, hc, _⟩ := dlLoop_ok_all _ hdl l hl
+      obtain ⟨d, c, hd, hc, _⟩ := dlLoop_ok_all hdup _ hdl l hl
       refine ⟨d, c, hd, ?_, ?_⟩
       · -- pruning does not remove a served layer
         rw [hblobs, prunedBlobs_keep]
         · exact hc
         · rw [← hd]; exact List.mem_map_of_mem hl
-      · cases hsk : getSkip d s.skip with
+      · cases hearly : cfg.verifyEarly with
+        | true => exact dlLoop_blobInv_early hearly _ hdl hinv d c hc
         | false =>
-          obtain ⟨c', hc', hh⟩ := hver l hl d hd hsk
-          rw [hc] at hc'; cases hc'; exact hh
-        | true =>
-          have := dlLoop_ok_nodup _ hdl hnodup l hl d hd hsk
-          rw [hc] at this
-          exact hinv d c this.symm
+          cases hsk : getSkip d s.skip with
+          | false =>
+            obtain ⟨c', hc', hh⟩ := hver hearly l hl d hd hsk
+            rw [hc] at hc'; cases hc'; exact hh
+          | true =>
+            have := dlLoop_ok_nodup hdup _ hdl hnodup l hl d hd hsk
+            rw [hc] at this
+            exact hinv d c this.symm
+
+/-- **The same for the repaired code, with no condition on the manifest**: once every fresh layer is
+    verified right after its download (`verifyEarly`), success implies every served layer is stored
+    and hashes to its digest — also when a digest is listed twice. -/
+theorem pull_success_complete_fixed (cfg : Cfg) (hash : Bytes → Digest) (name : Name) (reg : Registry)
+    (sc : Scripts) (st st' : Store) (log : Log) (hearly : cfg.verifyEarly = true)
+    (hinv : BlobInv hash st) (h : pull cfg hash name reg sc st = (.ok (), st', log)) :
+    (∀ l ∈ reg.manifest.all, ∃ d c, l.digest = .ok d ∧ st'.blobs d = some c ∧ hash c = d) ∧
+    lookupM name st'.manifests = some (.readable reg.manifest) := by
+  rcases pull_cases h with ⟨hne, _⟩ | ⟨_, _, _, hne, _⟩ | ⟨net0, s, ov, st2, hdl, hv, _, hcase⟩
+  · exact absurd rfl hne
+  · exact absurd rfl hne
+  · rcases hcase with ⟨hne, ho, _⟩ | ⟨hov, _, hman, hblobs⟩
+    · exact absurd ho.symm hne
+    · subst hov
+      obtain ⟨hst2, _⟩ := verifyPhase_ok hv
+      subst hst2
+      refine ⟨?_, by rw [hman]; exact lookupM_insertM _ _ _⟩
+      intro l hl
+      obtain ⟨d, c, hd, hc⟩ := dlLoop_ok_present _ hdl l hl
+      refine ⟨d, c, hd, ?_, dlLoop_blobInv_early hearly _ hdl hinv d c hc⟩
+      rw [hblobs, prunedBlobs_keep]
+      · exact hc
+      · rw [← hd]; exact List.mem_map_of_mem hl
 
 /-- The size clause: the code never compares sizes (`size_lie_accepted`); it follows from the digest
     clause exactly when the declared size is the size of whatever hashes to the digest (which is
     what an honest manifest declares, and what collision resistance gives). -/
 theorem pull_success_sizes (cfg : Cfg) (hash : Bytes → Digest) (name : Name) (reg : Registry)
-    (sc : Scripts) (st st' : Store) (log : Log)
+    (sc : Scripts) (st st' : Store) (log : Log) (hdup : cfg.fixedDup = false)
     (hinv : BlobInv hash st) (hnodup : (reg.manifest.all.map (·.digest)).Nodup)
     (hsize : ∀ l ∈ reg.manifest.all, ∀ d c, l.digest = .ok d → hash c = d → c.length = l.size)
     (h : pull cfg hash name reg sc st = (.ok (), st', log)) :
     ∀ l ∈ reg.manifest.all, ∃ d c, l.digest = .ok d ∧ st'.blobs d = some c ∧ hash c = d ∧
       c.length = l.size := by
   intro l hl
-  obtain ⟨d, c, hd, hc, hh⟩ := (pull_success_complete cfg hash name reg sc st st' log hinv hnodup h).1 l hl
+  obtain ⟨d, c, hd, hc, hh⟩ := (pull_success_complete cfg hash name reg sc st st' log hdup hinv hnodup h).1 l hl
   exact ⟨d, c, hd, hc, hh, hsize l hl d c hd hh⟩
 
 /-! ## Failure -/
 
 /-- **A failed (or crashed) pull never changes what was there**: every blob of the old store is still
-    stored with the same bytes and every manifest is unchanged.  (It can *add* blobs: F6.) -/
+    stored with the same bytes and every manifest is unchanged — for the pinned `skipVerify` logic
+    and for the fully repaired code.  (The pinned code can *add* blobs: F6.) -/
 theorem pull_fail_preserves_store (cfg : Cfg) (hash : Bytes → Digest) (name : Name) (reg : Registry)
-    (sc : Scripts) (st st' : Store) (o : Outcome) (log : Log) (hne : o ≠ .ok ())
+    (sc : Scripts) (st st' : Store) (o : Outcome) (log : Log)
+    (hvar : cfg.fixedDup = false ∨ cfg.verifyEarly = true) (hne : o ≠ .ok ())
     (h : pull cfg hash name reg sc st = (o, st', log)) :
     (∀ d c, st.blobs d = some c → st'.blobs d = some c) ∧ st'.manifests = st.manifests := by
   rcases pull_cases h with ⟨_, hst, _⟩ | ⟨_, s, hdl, _, hst, _⟩ | ⟨net0, s, ov, st2, hdl, hv, _, hcase⟩
@@ -160,33 +190,38 @@ theorem pull_fail_preserves_store (cfg : Cfg) (hash : Bytes → Digest) (name : 
   · rcases hcase with ⟨_, _, hst⟩ | ⟨_, ho, _⟩
     · subst hst
       obtain ⟨hm, hk, _, _⟩ := dlLoop_preserve _ hdl
-      obtain ⟨vm, vx⟩ := verifyLoop_any _ hv
+      obtain ⟨vm, vx⟩ := verifyPhase_any hv
       refine ⟨?_, vm.trans hm⟩
       intro d c hc
       have hc1 := hk d c hc
-      rcases vx d with e | ⟨hf, l, hl, hd⟩
+      rcases vx d with e | ⟨hpin, hf, l, hl, hd⟩
       · rw [e]; exact hc1
-      · have := dlLoop_skip_true _ hdl (x := d) hc (Or.inl ⟨l, hl, hd⟩)
+      · have hdup : cfg.fixedDup = false := by
+          rcases hvar with h1 | h2
+          · exact h1
+          · rw [hpin] at h2; cases h2
+        have := dlLoop_skip_true hdup _ hdl (x := d) hc (Or.inl ⟨l, hl, hd⟩)
         rw [this] at hf; cases hf
     · exact absurd ho hne
 
 /-- **After a failed pull no name resolves to a manifest with missing or corrupt layers**
     (given that this was so before). -/
 theorem pull_fail_preserves_names (cfg : Cfg) (hash : Bytes → Digest) (name : Name) (reg : Registry)
-    (sc : Scripts) (st st' : Store) (o : Outcome) (log : Log) (hne : o ≠ .ok ())
+    (sc : Scripts) (st st' : Store) (o : Outcome) (log : Log)
+    (hvar : cfg.fixedDup = false ∨ cfg.verifyEarly = true) (hne : o ≠ .ok ())
     (hinv : NameInv hash st) (h : pull cfg hash name reg sc st = (o, st', log)) :
     NameInv hash st' := by
-  obtain ⟨hb, hm⟩ := pull_fail_preserves_store cfg hash name reg sc st st' o log hne h
+  obtain ⟨hb, hm⟩ := pull_fail_preserves_store cfg hash name reg sc st st' o log hvar hne h
   intro n m hn l hl
   rw [hm] at hn
   obtain ⟨d, c, hd, hc, hh⟩ := hinv n m hn l hl
   exact ⟨d, c, hd, hb d c hc, hh⟩
 
-/-- `pull_fail_preserves` (`BlobInv` after a failed pull) is false: F6.  What holds: a failed pull
-    changes the blob map only at digests it renamed into place itself; so if it renamed nothing
-    the blob map — and `BlobInv` — is exactly what it was. -/
+/-- `pull_fail_preserves` (`BlobInv` after a failed pull) is false of the pinned code: F6.  What holds
+    there: a failed pull changes the blob map only at digests it renamed into place itself; so if it
+    renamed nothing the blob map — and `BlobInv` — is exactly what it was. -/
 theorem pull_fail_blobs_partial (cfg : Cfg) (hash : Bytes → Digest) (name : Name) (reg : Registry)
-    (sc : Scripts) (st st' : Store) (o : Outcome) (log : Log) (hne : o ≠ .ok ())
+    (sc : Scripts) (st st' : Store) (o : Outcome) (log : Log) (hdup : cfg.fixedDup = false) (hne : o ≠ .ok ())
     (h : pull cfg hash name reg sc st = (o, st', log)) :
     (∀ d, d ∉ log.renamed → st'.blobs d = st.blobs d) ∧
     (log.renamed = [] → BlobInv hash st → BlobInv hash st') := by
@@ -202,16 +237,16 @@ theorem pull_fail_blobs_partial (cfg : Cfg) (hash : Bytes → Digest) (name : Na
     · rcases hcase with ⟨_, _, hst⟩ | ⟨_, ho, _⟩
       · subst hst
         obtain ⟨_, _, _, hc⟩ := dlLoop_preserve _ hdl
-        obtain ⟨_, vx⟩ := verifyLoop_any _ hv
+        obtain ⟨_, vx⟩ := verifyPhase_any hv
         intro d hd
         rw [hr] at hd
         have e1 : s.st.blobs d = st.blobs d := by
           rcases hc d with e | r
           · exact e
           · exact absurd r hd
-        rcases vx d with e | ⟨hf, l, hl, hdl'⟩
+        rcases vx d with e | ⟨_, hf, l, hl, hdl'⟩
         · rw [e, e1]
-        · obtain ⟨d', _, hd', _, hor⟩ := dlLoop_ok_all _ hdl l hl
+        · obtain ⟨d', _, hd', _, hor⟩ := dlLoop_ok_all hdup _ hdl l hl
           rw [hdl'] at hd'; cases hd'
           rcases hor with ht | hrn
           · rw [ht] at hf; cases hf
@@ -221,6 +256,48 @@ theorem pull_fail_blobs_partial (cfg : Cfg) (hash : Bytes → Digest) (name : Na
   intro hnil hinv d c hc
   rw [main d (by simp [hnil])] at hc
   exact hinv d c hc
+
+/-- **`pull_fail_preserves`, full strength, for the repaired code**: once every fresh layer is verified
+    right after its download, a pull — whatever its outcome: success, any error, a crash — never
+    leaves a blob that does not hash to its name.  No guard. -/
+theorem pull_fail_preserves (cfg : Cfg) (hash : Bytes → Digest) (name : Name) (reg : Registry)
+    (sc : Scripts) (st st' : Store) (o : Outcome) (log : Log) (hearly : cfg.verifyEarly = true)
+    (hinv : BlobInv hash st) (h : pull cfg hash name reg sc st = (o, st', log)) :
+    BlobInv hash st' := by
+  rcases pull_cases h with ⟨_, hst, _⟩ | ⟨_, s, hdl, _, hst, _⟩ | ⟨net0, s, ov, st2, hdl, hv, _, hcase⟩
+  · subst hst; exact hinv
+  · subst hst; exact dlLoop_blobInv_early hearly _ hdl hinv
+  · have hs : ∀ x c, s.st.blobs x = some c → hash c = x := dlLoop_blobInv_early hearly _ hdl hinv
+    have hst2 : st2 = s.st := by
+      unfold verifyPhase at hv
+      rw [hearly] at hv
+      simp only [if_true] at hv
+      cases hv; rfl
+    subst hst2
+    rcases hcase with ⟨_, _, hst⟩ | ⟨_, _, _, hblobs⟩
+    · subst hst; exact hs
+    · intro x c hx
+      rw [hblobs] at hx
+      exact hs x c (prunedBlobs_sub _ _ _ _ _ x c hx)
+
+/-- **No registry response crashes the repaired code**: with the `getValue` bounds check and the
+    empty digest rejected, `pull` never ends in a panic — for every store, registry, manifest
+    (malformed digests included) and fault script. -/
+theorem pull_no_panic_fixed (cfg : Cfg) (hash : Bytes → Digest) (name : Name) (reg : Registry)
+    (sc : Scripts) (st : Store) (p : PanicSite)
+    (hfix : cfg.fixedChallenge = true) (hempty : cfg.fixedEmpty = true) :
+    (pull cfg hash name reg sc st).1 ≠ .panic p := by
+  generalize hp : pull cfg hash name reg sc st = r
+  obtain ⟨o, st', log⟩ := r
+  show o ≠ .panic p
+  rcases pull_cases hp with ⟨_, _, _, hpan⟩ | ⟨_, s, hdl, _, _, _⟩ | ⟨net0, s, ov, st2, hdl, hv, _, hcase⟩
+  · intro e
+    obtain ⟨k, s, net, hm⟩ := hpan p e
+    exact mrr_no_panic hfix _ _ p k s net hm
+  · exact dlLoop_no_panic hfix hempty p _ hdl
+  · rcases hcase with ⟨_, ho, _⟩ | ⟨_, ho, _⟩
+    · rw [ho]; exact verifyPhase_no_panic p hv
+    · rw [ho]; simp
 
 /-! ## Concrete witnesses (toy hash = first byte) -/
 
@@ -265,6 +342,36 @@ example : (pull cfgW toyHash 0 regAB scF6 st0).1 ≠ .ok () ∧
     (pull cfgW toyHash 0 regAB ⟨[.notfound], [], []⟩ st0).1 = .err .manifest ∧
     (pull cfgW toyHash 0 regAB ⟨[.notfound], [], []⟩ st0).2.2.renamed = [] := by decide
 
+/-! ## The repaired variants on the same witnesses -/
+
+def cfgF : Cfg := { cfgW with fixedChallenge := true, fixedEmpty := true, fixedDup := true, verifyEarly := true }
+def cfgD : Cfg := { cfgW with fixedDup := true }
+
+/-- the F6 script against the repaired code: attempt 1 fails with a digest mismatch on layer A at once
+    and leaves no blob; the honest retry installs the right bytes -/
+theorem F6_repaired :
+    let r1 := pull cfgF toyHash 0 regAB scF6 st0
+    let r2 := pull cfgF toyHash 0 regAB Scripts.honest r1.2.1
+    r1.1 = .err .digestMismatch ∧ r1.2.1.blobs dA = none ∧ r1.2.2.renamed = [] ∧
+    r2.1 = .ok () ∧ r2.2.1.blobs dA = some cA ∧ r2.2.1.blobs dB = some cB := by decide
+
+/-- the repeated digest against the repaired code (with only the `skipVerify` guard, and with all
+    fixes): the corrupt download is caught; the empty digest is an error, not a panic -/
+theorem dup_and_empty_repaired :
+    let reg : Registry := ⟨⟨[⟨.ok dA, 2⟩, ⟨.ok dA, 2⟩], ⟨.empty, 0⟩⟩, [(dA, cA)], [0]⟩
+    let sc : Scripts := ⟨[], [], [(dA, ⟨[], [], [[.body (.flip 0) none .eof]]⟩)]⟩
+    let regE : Registry := ⟨⟨[⟨.empty, 0⟩], ⟨.empty, 0⟩⟩, [], [0]⟩
+    (pull cfgD toyHash 0 reg sc st0).1 = .err .digestMismatch ∧
+    (pull cfgD toyHash 0 reg sc st0).2.1.blobs dA = none ∧
+    (pull cfgF toyHash 0 reg sc st0).1 = .err .digestMismatch ∧
+    (pull cfgF toyHash 0 reg Scripts.honest st0).1 = .ok () ∧
+    (pull cfgF toyHash 0 regE Scripts.honest st0).1 = .err .digestFormat := by decide
+
+/-- non-vacuity of the repaired-variant theorems -/
+example : cfgF.verifyEarly = true ∧ cfgF.fixedChallenge = true ∧ cfgF.fixedEmpty = true ∧
+    (pull cfgF toyHash 0 regAB Scripts.honest st0).1 = .ok () ∧
+    (pull cfgF toyHash 0 regAB scF6 st0).1 ≠ .ok () := by decide
+
 /-! ## Retry -/
 
 /-- the registry really has what its manifest names -/
@@ -288,10 +395,14 @@ theorem retry_can_succeed (cfg : Cfg) (hash : Bytes → Digest) (name : Name) (r
     ⟨st, { tok := [], nm := 1 }, [], []⟩ hreg hinv hclean
   have hpresent : ∀ l ∈ reg.manifest.all, ∀ d, l.digest = .ok d → ∃ c, s'.st.blobs d = some c := by
     intro l hl d hd
-    obtain ⟨d', c, hd', hc, _⟩ := dlLoop_ok_all _ hdl l hl
+    obtain ⟨d', c, hd', hc⟩ := dlLoop_ok_present _ hdl l hl
     rw [hd] at hd'; cases hd'; exact ⟨c, hc⟩
-  have hv := verifyLoop_honest hash s'.skip reg.manifest.all s'.st hb' hpresent
-  have hdl' : dlLoop cfg reg ⟨[], [], []⟩ reg.manifest.all ⟨st, { tok := [], nm := 1 }, [], []⟩ = (.ok (), s') := hdl
+  have hv : (if cfg.verifyEarly = true then ((R.ok () : Outcome), s'.st)
+      else verifyLoop hash s'.skip reg.manifest.all s'.st) = (.ok (), s'.st) := by
+    split
+    · rfl
+    · exact verifyLoop_honest hash s'.skip reg.manifest.all s'.st hb' hpresent
+  have hdl' : dlLoop cfg hash reg ⟨[], [], []⟩ reg.manifest.all ⟨st, { tok := [], nm := 1 }, [], []⟩ = (.ok (), s') := hdl
   show (pull cfg hash name reg ⟨[], [], []⟩ st).1 = .ok ()
   simp only [pull, mrr_pass, hdl', hv]
 
